@@ -18,6 +18,7 @@
 (*     [op |-> "def"/"defs", names]   the code binds names (STORE_NAME)    *)
 (*     [op |-> "use", name, scope]    the code looks a name up             *)
 (*     [op |-> "raise", name]         the code raises exception `name`     *)
+(*     [op |-> "ayns", name]          the code reads ayns.cfg.<name>       *)
 (* each with phase "exec" (all lines but the last, eval.py:112,120) or     *)
 (* "eval" (the last line, eval.py:113,121); `cos` = per code object the    *)
 (* facts the bytecode rewriter (eval.py:152-330) depends on.  What the     *)
@@ -37,7 +38,8 @@
 (***************************************************************************)
 EXTENDS Naturals, Sequences, FiniteSets, TLC
 
-CONSTANTS ModuleCacheKeepsCtx, BytecodePatch312, NoFilenameCompile, BuiltinBeforeCfg, SymbolsLeak
+CONSTANTS ModuleCacheKeepsCtx, BytecodePatch312, NoFilenameCompile, BuiltinBeforeCfg, SymbolsLeak,
+          Prog(_)      \* the program table: index -> descriptor (the state holds indices only)
 
 VARIABLE st     \* the whole machine state as one record (so that it can be instantiated several times)
 
@@ -62,8 +64,7 @@ Outcome(kind, cause, arg, log) == [kind |-> kind, cause |-> cause, arg |-> arg, 
 NoOutcome   == Outcome("none", "", "", <<>>)
 Unspecified == Outcome("unspecified", "", "", <<>>)     \* undefined behaviour: crash, wrong value, any error
 
-NoProg  == [id |-> "", events |-> <<>>, builtins |-> <<>>, bn |-> <<>>, multiline |-> FALSE, persistent |-> FALSE, cos |-> <<>>]
-NoBuild == [prog |-> NoProg, cfg |-> EmptyTable, syms |-> EmptyTable, file |-> TRUE, id |-> 0]
+NoBuild == [prog |-> 0, cfg |-> EmptyTable, syms |-> EmptyTable, file |-> TRUE, id |-> 0]
 
 InitState ==
     [modcache   |-> [k \in {} |-> 0],   \* sys.modules: key -> [ns, ayns]
@@ -99,22 +100,24 @@ CoSafe(c) == Len(c.ldIdx) = 0 \/
 PatchSafe(p) == \A i \in 1..Len(p.cos) : CoSafe(p.cos[i])
 
 ----------------------------------------------------------------------------
-Key(p) == p.id          \* eval.py:90-91: path of the node (always r) + md5 of the code = identity of the program text
+Key(pi) == pi           \* eval.py:90-91: path of the node (always r) + md5 of the code = identity of the program text
+CurProg == Prog(st.cur.prog)
 
-\* Config.build(document with config c and the program p under r, filename = f, eval_ctx = EvalContext(s))
+\* Config.build(document with config c and the program Prog(pi) under r, filename = f, eval_ctx = EvalContext(s))
 \* up to the point where user code starts: eval_context.py:84-86, eval.py:89-119
-Build(p, c, s, f) ==
+Build(pi, c, s, f) ==
     /\ st.pc = "idle"
-    /\ LET syms == s @@ st.defsyms                       \* copy of the defaults updated with the given symbols
-           hit  == ModuleCacheKeepsCtx /\ p.persistent /\ Key(p) \in DOMAIN st.modcache      \* eval.py:94
+    /\ LET p    == Prog(pi)
+           syms == s @@ st.defsyms                       \* copy of the defaults updated with the given symbols
+           hit  == ModuleCacheKeepsCtx /\ p.persistent /\ Key(pi) \in DOMAIN st.modcache      \* eval.py:94
            id   == st.nb + 1
            base == [st EXCEPT !.nb = id,
                               !.defsyms = IF SymbolsLeak THEN syms ELSE @,
-                              !.cur = [prog |-> p, cfg |-> c, syms |-> s, file |-> f, id |-> id],
+                              !.cur = [prog |-> pi, cfg |-> c, syms |-> s, file |-> f, id |-> id],
                               !.fromModule = hit,
-                              !.ns = IF hit THEN st.modcache[Key(p)].ns                      \* eval.py:95
+                              !.ns = IF hit THEN st.modcache[Key(pi)].ns                     \* eval.py:95
                                      ELSE ValTable(syms, SymVal),                            \* eval.py:98-105
-                              !.ayns = IF hit THEN st.modcache[Key(p)].ayns ELSE [id |-> id, cfg |-> c],
+                              !.ayns = IF hit THEN st.modcache[Key(pi)].ayns ELSE [id |-> id, cfg |-> c],
                               !.evi = 1, !.log = <<>>, !.outcome = NoOutcome,
                               !.fired = IF hit THEN {"ModuleCacheKeepsCtx"} ELSE {}]
        IN IF st.poisoned
@@ -130,9 +133,9 @@ Build(p, c, s, f) ==
 \* GlobalsWrapper.__getattr__, eval.py:36-46; the same for every scope the lookup is made from
 Resolve(n) ==
     IF n \in DOMAIN st.ns THEN st.ns[n]                                          \* own definition or symbol (one dict)
-    ELSE IF BuiltinBeforeCfg /\ IsBuiltin(st.cur.prog, n) THEN BuiltinVal(n)
+    ELSE IF BuiltinBeforeCfg /\ IsBuiltin(CurProg, n) THEN BuiltinVal(n)
     ELSE IF n \in DOMAIN st.cur.cfg THEN CfgVal(n, st.cur.cfg[n])                \* evaluated top-level entry
-    ELSE IF IsBuiltin(st.cur.prog, n) THEN BuiltinVal(n)
+    ELSE IF IsBuiltin(CurProg, n) THEN BuiltinVal(n)
     ELSE Undef                                                                   \* NameError
 
 \* a registered module's dict IS gbls of every later build that hits it (eval.py:95): keep the alias up to date
@@ -149,30 +152,36 @@ DoEvent(e) ==
             LET v == Resolve(e.name)
             IN IF v = Undef THEN RaiseUser("NameError", e.name)
                ELSE st' = [st EXCEPT !.evi = @ + 1,
-                                     !.log = Append(@, [evi |-> st.evi, name |-> e.name, val |-> v, scope |-> e.scope, phase |-> e.phase])]
+                                     !.log = Append(@, [evi |-> st.evi, name |-> e.name, val |-> v, scope |-> e.scope, phase |-> e.phase, via |-> "name"])]
+      [] e.op = "ayns" ->                                              \* eval.py:99-102: gbls['ayns'].cfg is ctx.ecfg of the build that made gbls
+            IF e.name \in DOMAIN st.ayns.cfg
+            THEN st' = [st EXCEPT !.evi = @ + 1,
+                                  !.log = Append(@, [evi |-> st.evi, name |-> e.name, val |-> CfgVal(e.name, st.ayns.cfg[e.name]),
+                                                     scope |-> e.scope, phase |-> e.phase, via |-> "ayns"])]
+            ELSE RaiseUser("KeyError", e.name)                         \* eval_context.py:41-44
       [] e.op = "raise" -> RaiseUser(e.name, "")
 
-HasEvent(phase) == st.evi <= Len(st.cur.prog.events) /\ st.cur.prog.events[st.evi].phase = phase
+HasEvent(phase) == st.evi <= Len(CurProg.events) /\ CurProg.events[st.evi].phase = phase
 
 \* exec(all lines but the last, gbls), eval.py:120 - one name operation per step
 ExecLines ==
     /\ st.pc = "exec"
-    /\ IF HasEvent("exec") THEN DoEvent(st.cur.prog.events[st.evi]) ELSE st' = [st EXCEPT !.pc = "eval"]
+    /\ IF HasEvent("exec") THEN DoEvent(CurProg.events[st.evi]) ELSE st' = [st EXCEPT !.pc = "eval"]
 
 \* eval(last line, gbls), eval.py:121
 EvalLast ==
     /\ st.pc = "eval"
     /\ HasEvent("eval")
-    /\ DoEvent(st.cur.prog.events[st.evi])
+    /\ DoEvent(CurProg.events[st.evi])
 
 \* eval.py:133-143: the value is returned; multi-line code registers its namespace as a module
 Return ==
     /\ st.pc = "eval"
     /\ ~HasEvent("eval")
-    /\ LET p == st.cur.prog
+    /\ LET p == CurProg
        IN st' = [st EXCEPT !.pc = "done", !.outcome = Outcome("value", "", "", st.log),
                            !.modcache = IF p.multiline /\ p.persistent /\ ~st.fromModule                \* eval.py:135-138
-                                        THEN (Key(p) :> [ns |-> st.ns, ayns |-> st.ayns]) @@ @
+                                        THEN (Key(st.cur.prog) :> [ns |-> st.ns, ayns |-> st.ayns]) @@ @
                                         ELSE Alias(@)]
 
 \* the caller has seen the outcome
@@ -187,18 +196,23 @@ Chain(b, n, defd) ==
     IF n \in defd THEN OwnVal(n)
     ELSE IF n \in DOMAIN b.syms THEN SymVal(n, b.syms[n])
     ELSE IF n \in DOMAIN b.cfg THEN CfgVal(n, b.cfg[n])
-    ELSE IF IsBuiltin(b.prog, n) THEN BuiltinVal(n)
+    ELSE IF IsBuiltin(Prog(b.prog), n) THEN BuiltinVal(n)
     ELSE Undef
 
 RECURSIVE WantFrom(_, _, _, _)
 WantFrom(b, i, defd, lg) ==
-    IF i > Len(b.prog.events) THEN Outcome("value", "", "", lg)
-    ELSE LET e == b.prog.events[i]
+    IF i > Len(Prog(b.prog).events) THEN Outcome("value", "", "", lg)
+    ELSE LET e == Prog(b.prog).events[i]
          IN CASE e.op \in {"def", "defs"} -> WantFrom(b, i + 1, defd \cup ToSetS(e.names), lg)
               [] e.op = "use" ->
                     LET v == Chain(b, e.name, defd)
                     IN IF v = Undef THEN Outcome("EvalError", "NameError", e.name, lg)
-                       ELSE WantFrom(b, i + 1, defd, Append(lg, [evi |-> i, name |-> e.name, val |-> v, scope |-> e.scope, phase |-> e.phase]))
+                       ELSE WantFrom(b, i + 1, defd, Append(lg, [evi |-> i, name |-> e.name, val |-> v, scope |-> e.scope, phase |-> e.phase, via |-> "name"]))
+              [] e.op = "ayns" ->          \* ayns.cfg is THIS build's (evaluated) config
+                    IF e.name \in DOMAIN b.cfg
+                    THEN WantFrom(b, i + 1, defd, Append(lg, [evi |-> i, name |-> e.name, val |-> CfgVal(e.name, b.cfg[e.name]),
+                                                              scope |-> e.scope, phase |-> e.phase, via |-> "ayns"]))
+                    ELSE Outcome("EvalError", "KeyError", e.name, lg)
               [] e.op = "raise" -> Outcome("EvalError", e.name, "", lg)
 Want(b) == WantFrom(b, 1, {}, <<>>)
 
@@ -208,7 +222,9 @@ DefsBefore(p, i) == UNION {ToSetS(p.events[j].names) : j \in {k \in 1..(i - 1) :
 ResolveOrder ==
     (st.pc # "idle" /\ st.outcome.kind # "unspecified") =>
         \A i \in 1..Len(st.log) :
-            st.log[i].val = Chain(st.cur, st.log[i].name, DefsBefore(st.cur.prog, st.log[i].evi))
+            IF st.log[i].via = "name"
+            THEN st.log[i].val = Chain(st.cur, st.log[i].name, DefsBefore(CurProg, st.log[i].evi))
+            ELSE st.log[i].name \in DOMAIN st.cur.cfg /\ st.log[i].val = CfgVal(st.log[i].name, st.cur.cfg[st.log[i].name])
 
 \* all but the last line are executed before the last line is evaluated
 ExecEvalSplit ==
